@@ -109,14 +109,16 @@ def run_handshake(case):
     net.peer_factory = factory
     raised, ws = None, None
     lb = LineBudget(REPO, 100000 + 80 * len(data))
+    # via_proxy: the bytes are what an HTTP proxy answers to the CONNECT request (a server on the path, too)
+    pk = {"http_proxy_host": "proxy.test", "http_proxy_port": 3128} if case.get("via_proxy") else {}
     with net.installed():
         try:
             with lb:
                 if case.get("api") == "create_connection":
-                    ws = websocket.create_connection("ws://fuzz.test/h", timeout=2)
+                    ws = websocket.create_connection("ws://fuzz.test/h", timeout=2, **pk)
                 else:
                     ws = websocket.WebSocket()
-                    ws.connect("ws://fuzz.test/h")
+                    ws.connect("ws://fuzz.test/h", **pk)
         except (Budget, StepBudget) as e:
             obs.fail("handshake|no-progress", f"{type(e).__name__}: {e}")
         except Exception as e:
@@ -128,14 +130,14 @@ def run_handshake(case):
         if big:
             obs.fail("handshake|peer-declared-read-size", f"transport recv({big[0]}) requested; response={data[:120]!r}")
             break
-    if raised is None and ws is not None and not obs.fails:
+    if raised is None and ws is not None and not obs.fails and not case.get("via_proxy"):
         first = net.sockets[0]
         resp = getattr(first, "_resp", data)
         if len(net.sockets) == 1 and lenient_response_valid(resp, keys[0] if keys else "") is False:
             obs.fail("handshake|connected-on-invalid-response", f"connect() returned for response {resp[:160]!r}")
     valid_prefix = data.startswith(b"HTTP/1.1 101") and b"$ACCEPT$" in data
-    obs.cls = ("handshake", f"mut:{case.get('mut', 'raw')}", f"outcome:{'ok' if raised is None else type(raised).__name__}", f"at_end:{case.get('at_end', 'eof')}")
-    obs.nt = ("h", data, tuple(case.get("cuts", [])), case.get("at_end")) if not (valid_prefix and case.get("mut") in (None, "none")) else None
+    obs.cls = ("handshake" if not case.get("via_proxy") else "proxy-reply", f"mut:{case.get('mut', 'raw')}", f"outcome:{'ok' if raised is None else type(raised).__name__}", f"at_end:{case.get('at_end', 'eof')}")
+    obs.nt = ("h", data, tuple(case.get("cuts", [])), case.get("at_end"), bool(case.get("via_proxy"))) if not (valid_prefix and case.get("mut") in (None, "none")) else None
     return obs
 
 
@@ -285,7 +287,7 @@ def handshake_cases(draw):
         data = data[: draw(st.integers(0, len(data)))]
     cuts = draw(st.lists(st.integers(1, max(1, len(data))), max_size=4))
     return {"phase": "handshake", "data": data, "cuts": sorted(set(cuts)), "at_end": draw(st.sampled_from(["eof", "eof", "timeout"])),
-            "api": draw(st.sampled_from(["connect", "create_connection"])), "mut": mut}
+            "api": draw(st.sampled_from(["connect", "create_connection"])), "mut": mut, "via_proxy": draw(st.integers(0, 4)) == 0}
 
 
 @st.composite
@@ -337,6 +339,10 @@ def status_shapes():
                 lines += ["Location: ws://next.test/"]
             yield {"phase": "handshake", "data": ("\r\n".join(lines) + "\r\n\r\n").encode("utf-8", "surrogateescape"), "cuts": [], "at_end": "eof",
                    "api": "connect", "mut": "status-shape"}
+        # the same status lines as a proxy's answer to CONNECT, alone and after a leading empty line
+        for pre in ("", "\r\n", "\n"):
+            yield {"phase": "handshake", "data": (pre + line + "\r\n\r\n").encode("utf-8", "surrogateescape"), "cuts": [], "at_end": "eof",
+                   "api": "connect", "mut": "status-shape", "via_proxy": True}
 
 
 def cookie_shapes():
